@@ -22,6 +22,7 @@ class P(vlib.Prop):
         dict(name="readers", cmd="c15", args=lambda t, s: []),
         dict(name="sites", cmd="c15", args=lambda t, s: ["-stage", "sites"]),
         dict(name="decoders", cmd="c15", args=lambda t, s: ["-stage", "decoders"]),
+        dict(name="includes", cmd="c15", args=lambda t, s: ["-stage", "includes"]),
     )
     assumptions = (
         "library decoders (gzip, tar, yaml, json, ini, base64, hex, regexp, strconv) are not modelled: their behaviour on malformed input is explored by the harness (stage decoders), not proved; "
